@@ -114,8 +114,18 @@ void harness(void) {
       V_ASSERT(rc == CIF_OK && v != NULL, "with every error accepted the value is recovered");
       V_ASSERT(cif_value_get_element_count(v, &n) == CIF_OK && (int) n == EXPECT_TOP, "the documented recovery keeps exactly the expected elements / entries");
       V_ASSERT(sc.text_start == buf + W * EXPECT_CONSUMED, "the token that reveals a missing delimiter is left for the caller");
+#ifdef LIVE_KEY_AT      /* the entry introduced by the key token at LIVE_KEY_AT is still a live value object of the table */
+      { UChar key[3]; cif_value_tp *e = NULL; key[0] = buf[W * LIVE_KEY_AT]; key[1] = buf[W * LIVE_KEY_AT + 1]; key[2] = 0;
+        V_ASSERT(v->kind == CIF_TABLE_KIND && cif_value_get_item_by_key(v, key, &e) == CIF_OK && e != NULL, "the well-formed entry before the defect is kept");
+#ifndef VERIF_REPLAY
+        V_ASSERT(__CPROVER_r_ok(e, sizeof *e), "the table's entries are live objects after the recovery (nothing the table owns was released)");
+#endif
+      }
+#endif
     }
 #endif
+#ifndef LIVE_KEY_AT     /* (releasing a table that holds a dangling entry would only blow up the query; this variant runs without memory-leak check) */
     cif_value_free(v);
+#endif
     V_COVER("end");
 }
